@@ -615,7 +615,7 @@ def _retwin(rng, obj):
     return o
 
 
-def share_in_evaluation(rng, cj, how=None):
+def share_in_evaluation(rng, cj, how=None, src=None, at=None):
     """an evaluation with one more clip evaluation that *shares* the ClipAnnotation and / or the ClipPrediction object
     of an existing one (two detector settings scored against one ground truth; one prediction scored against two
     annotators; the same pair evaluated twice).  The validators are satisfied: the other side is a twin over the same
@@ -628,7 +628,7 @@ def share_in_evaluation(rng, cj, how=None):
     out = copy.deepcopy(cj)
     ces = out["value"]["clip_evaluations"]
     how = how or rng.choice(["annotations", "predictions", "both", "both+matches"])
-    src = rng.choice(ces)
+    src = rng.choice(ces) if src is None else ces[src]
     new = copy.deepcopy(src)
     new["uuid"] = _uid(rng)
     if how == "annotations":
@@ -637,7 +637,7 @@ def share_in_evaluation(rng, cj, how=None):
         new["annotations"] = _retwin(rng, src["annotations"])
     if how != "both+matches":
         new["matches"] = [_retwin(rng, m) for m in src["matches"]]
-    ces.insert(rng.randint(0, len(ces)), new)
+    ces.insert(rng.randint(0, len(ces)) if at is None else at, new)
     return out
 
 
@@ -774,6 +774,10 @@ def sharing_cases(rng):
             one = share_in_evaluation(rng, base, how)
             two = share_in_evaluation(rng, one, how)
             out += lab([one, two], "clip-evaluation:" + how)
+            # the sharing clip evaluations first and last, another one in between; and next to each other
+            out += lab([share_in_evaluation(rng, base, how, src=0, at=2), share_in_evaluation(rng, base, how, src=1, at=2),
+                        share_in_evaluation(rng, share_in_evaluation(rng, base, how, src=0, at=2), how, src=0, at=2)],
+                       "clip-evaluation:" + how)
         # only the shared pair: [ce(A, P1), ce(A, P2)] and [ce(A1, P), ce(A2, P)]
         for how in ("annotations", "predictions"):
             solo = t.wrap("evaluation", ces=[copy.deepcopy(base["value"]["clip_evaluations"][0])])
